@@ -1,4 +1,4 @@
-ENTRY = {'modules': ['VirtioVerif.Props.C03', 'VirtioVerif.Props.C03Inv'],
+ENTRY = {'modules': ['VirtioVerif.Props.C03', 'VirtioVerif.Props.C03Inv', 'VirtioVerif.Props.QueueRefines'],
  'assumptions': ['caller contract of the unsafe fns (buffers stay valid and untouched until popped; pop_used '
                  "gets the same buffers as add) — the harness's structured stream honours it, the malformed "
                  "stream deliberately does not and is compared with the model's explicit panic outcomes",
@@ -21,4 +21,6 @@ ENTRY = {'modules': ['VirtioVerif.Props.C03', 'VirtioVerif.Props.C03Inv'],
                 'refused add has no side effect, device writes never touch driver-private state; the '
                 'accounting statements over whole histories are compared op by op with the real queue '
                 '(private counters, available_desc, peek, can_pop) including index soaks across several 2^16 '
-                'wraps, with the device-side chain accounting as oracle.'}
+                'wraps, with the device-side chain accounting as oracle. QueueRefines: the concrete queue '
+                'refines the abstract queue the driver models are written against (add_refines, pop_refines, '
+                'devUsed_refines; side invariants hold in every reachable state).'}
